@@ -103,7 +103,9 @@ def observe(args):
     out = []
     for ln in lines:
         try:
-            out.append((str(ln), [tuple(s) for s in ln.list_structure(states[1:])], ln.to_goofit(states[1:])))
+            first = ([tuple(s) for s in ln.list_structure(states[1:])], ln.to_goofit(states[1:]))
+            again = ([tuple(s) for s in ln.list_structure(states[1:])], ln.to_goofit(states[1:]))
+            out.append((str(ln), first[0], first[1] if first == again else "EXC not repeatable: asking the same line twice gives different code"))
         except Exception as e:  # noqa: BLE001
             out.append((str(ln), None, f"EXC {type(e).__name__}: {e!s:.200}"))
     return ("ok", out)
